@@ -37,10 +37,24 @@ Proof.
   split; [vm_compute; reflexivity|]. split; vm_compute; reflexivity.
 Qed.
 
-(* F7: rollback to a snapshot id that does not exist deletes the combined graph, then fails *)
+(* F7: with the UNREPAIRED statement order (delete_graph before the lookup) rollback to a snapshot id that does not
+   exist deletes the combined graph, then fails *)
 Theorem rollback_unknown_destroys :
   exists s1 s2, merge_adm 0 1 100 rm_store = OOk s1 /\ gexists 0 s1 = true /\
-                rollback 0 55 s1 = OErr EAssert s2 /\ gexists 0 s2 = false.
+                rollback_gen false 0 55 s1 = OErr EAssert s2 /\ gexists 0 s2 = false.
 Proof.
   eexists. eexists. split; [vm_compute; reflexivity|]. split; [vm_compute; reflexivity|]. split; vm_compute; reflexivity.
 Qed.
+
+(* with the REPAIRED order (lookup first) the full statement holds: rollback to an unknown or already used snapshot id
+   is refused and changes nothing *)
+Theorem rollback_unknown_refused cbm sid st :
+  gexists sid st = false -> rollback_gen true cbm sid st = OErr EAssert st.
+Proof. intro G. unfold rollback_gen. rewrite G. reflexivity. Qed.
+
+(* the model follows the source: which of the two the code does is regenerated on every run *)
+From FIM Require Gen.Cbm14Gen.
+Lemma gen_ok_true : Cbm14Gen.gen_ok = true.
+Proof. reflexivity. Qed.
+Lemma rollback_follows_source : rollback = rollback_gen Cbm14Gen.rollback_checks_first.
+Proof. reflexivity. Qed.
